@@ -158,7 +158,7 @@ def replay_inflated(col, item):
     rows = [r for r in case["rows"] if r[0] >= 1 and r[1] <= 1]
     rows = sorted(rows, key=lambda r: (len(r[4]) == 0, (r[0] + r[1] + r[2] + n) % 5))[:2]
     for row in rows:
-        conf = {"embedding": "equator", "shape": "linear", "sp": n % 5, "bin_factor": 1 + n % 3, "magnitude_factor": 10,
+        conf = {"embedding": "equator", "shape": "linear", "sp": n % 5, "bin_factor": [1, 2, 0.5, 3, 0.25][n % 5], "magnitude_factor": 10,
                 "leaf_size": 40, "inflated": True, "T": T}
         for swapped in (False, True):
             a, b = (S, P) if swapped else (P, S)
